@@ -18,7 +18,16 @@ def _garbage(rng, h, kind):
     if kind == "bad_atyp":
         return struct.pack("!HBB4sH", 0, 0, 4, bytes([10, 0, 0, 1]), 13000) + b"junkjunkjunk", h.client_addr
     if kind == "undecodable_from_sim":
-        return bytes(rng.getrandbits(8) for _ in range(rng.randint(1, 30))), far
+        # random bytes are now and then a well-formed datagram (valid header, known message number), which the proxy rightly
+        # forwards: "undecodable" means the real header parser rejects it (found by the thorough tier: false alarm of this harness)
+        from hippolyzer.lib.base.message.udpdeserializer import UDPMessageDeserializer
+        for _ in range(50):
+            g = bytes(rng.getrandbits(8) for _ in range(rng.randint(1, 30)))
+            try:
+                UDPMessageDeserializer().deserialize(g)
+            except Exception:  # noqa
+                return g, far
+        return b"\xff\xff\xff", far
     if kind == "truncated_from_sim":
         return b"\x00\x00\x00\x00", far
     if kind == "undecodable_from_viewer":
